@@ -272,3 +272,156 @@ func ruleGsubAnswersAString(c *Ctx) {
 		"strGsub "+why+": with no match in a subject passed as a number string.gsub(123, \"x\", \"y\") returns the number 123, not the string \"123\"")
 	_ = strings.TrimSpace
 }
+
+// ruleRaisedValueFits: F129. C05 "error() with a value of any type … is delivered … as that error
+// value" also when C12's registry limit is reached: the value handed to LState.Panic is placed by a push
+// that cannot itself raise. Every direct call through the Panic field is preceded, on every way to it,
+// by (a) the unchecked registry push dominated by a force-grown slot under IsFull, or (b) a checked
+// LState.Push into registers that were emptied first (SetTop(0): the dead coroutine in threadRun).
+func ruleRaisedValueFits(c *Ctx) {
+	const R = "R12-grow"
+	p := c.P
+	regPush := p.Fn("lua", "(*registry).Push")
+	lsPush := p.Fn("lua", "(*LState).Push")
+	isFull := p.Fn("lua", "(*registry).IsFull")
+	force := p.Fn("lua", "(*registry).forceResize")
+	setTop := p.Fn("lua", "(*LState).SetTop")
+	if regPush == nil || lsPush == nil || isFull == nil || force == nil || setTop == nil {
+		c.und(R, "raise-sites:anchors", "-", "registry.Push/IsFull/forceResize or LState.Push/SetTop not found")
+		return
+	}
+	n := 0
+	for _, fn := range p.srcFuncs {
+		if fn.Pkg == nil || fn.Pkg.Pkg.Name() != "lua" || fn.Blocks == nil {
+			continue
+		}
+		var g *PCFG
+		ord := 0
+		allInstrs(fn, func(in ssa.Instruction) {
+			if !p.isAxiomCall(in) {
+				return
+			}
+			if g == nil {
+				g = p.G(fn)
+			}
+			if !g.Live(in) {
+				return
+			}
+			n++
+			ord++
+			c.Sites++
+			c.touch(fn)
+			// the nearest push before the raise, in the same block
+			var push *ssa.Call
+			b := in.Block()
+			for i := idxIn(b, in) - 1; i >= 0 && push == nil; i-- {
+				if isCallTo(b.Instrs[i], regPush, lsPush) {
+					push = b.Instrs[i].(*ssa.Call)
+				}
+			}
+			okc, how := false, "no push of the raised value precedes the raise in its block"
+			if push != nil && push.Call.StaticCallee() == regPush {
+				how = "the unchecked registry push is not preceded by a slot forced under IsFull()"
+				for _, f := range callsTo(fn, force) {
+					if !g.Dominates(f, push) && f.Block() != push.Block() {
+						// the forcing arm rejoins before the push: it must be the IsFull arm
+					}
+					for _, cd := range g.CondsAtInstr(f) {
+						if call, ok := cd.V.(*ssa.Call); ok && cd.Sense && call.Call.StaticCallee() == isFull && g.Dominates(call, push) {
+							okc = true
+						}
+					}
+				}
+			} else if push != nil {
+				how = "the value is pushed with the checked LState.Push (which raises 'registry overflow' on a full registry) and the registers were not emptied first"
+				for _, st := range callsTo(fn, setTop) {
+					if k, ok := constInt(st.Call.Args[1]); ok && k == 0 && g.Dominates(st, push) && vkey(st.Call.Args[0]) == vkey(push.Call.Args[0]) {
+						okc = true
+					}
+				}
+			}
+			c.check(okc, R, fmt.Sprintf("raise-sites:%s#%d:raised-value-pushed-without-raising", fn.Name(), ord), p.ipos(in),
+				"the raised value is placed by a push that cannot raise", fname(fn)+" raises through LState.Panic, but "+how+": with a registry that is exactly full the caller's error value is replaced by 'registry overflow' (error({}) caught by pcall yields a string)")
+		})
+	}
+	c.check(n >= 3, R, "raise-sites", "-", fmt.Sprintf("%d direct raise sites examined", n), "direct raise sites (calls through LState.Panic) not found")
+}
+
+// ruleHiddenLoopVariablesScope: F130. C17 "debug.getlocal … enumerate exactly the named variables in
+// scope at the queried point": the hidden variables of a for loop are registered before the header
+// expressions are compiled (they own the registers the expressions are evaluated into), but their scope
+// starts at the instruction that enters the loop: in both for compilers StartScopeHere is called after
+// every compile of a header expression and before the loop-entry instruction is emitted, and it moves
+// StartPc of the block's variables.
+func ruleHiddenLoopVariablesScope(c *Ctx) {
+	const R = "R17-scope"
+	p := c.P
+	start := c.need(R, "lua", "(*funcContext).StartScopeHere")
+	if start == nil {
+		return
+	}
+	startPc := p.Field("lua", "DbgLocalInfo", "StartPc")
+	moves := false
+	allInstrs(start, func(in ssa.Instruction) {
+		if _, ok := isFieldStore(in, startPc); ok {
+			moves = true
+		}
+	})
+	c.Sites++
+	c.check(moves, R, "StartScopeHere:moves-StartPc", p.pos(start.Pos()), "stores DbgLocalInfo.StartPc", "StartScopeHere does not move StartPc")
+	reg := p.Fn("lua", "(*funcContext).RegisterLocalVar")
+	for _, name := range []string{"compileNumberForStmt", "compileGenericForStmt"} {
+		fn := c.need(R, "lua", name)
+		if fn == nil {
+			continue
+		}
+		g := p.G(fn)
+		calls := callsTo(fn, start)
+		okc := len(calls) == 1
+		why := fmt.Sprintf("%d calls of StartScopeHere", len(calls))
+		if okc {
+			s := calls[0]
+			// hidden registrations and the header compiles between them and the loop entry come first
+			var lastHidden *ssa.Call
+			for _, r := range callsTo(fn, reg) {
+				if nm, ok := constStr(r.Call.Args[1]); ok && strings.HasPrefix(nm, "(for ") {
+					if !g.Dominates(r, s) {
+						okc, why = false, "a hidden variable is registered after the scope start was set"
+					}
+					lastHidden = r
+				}
+			}
+			if lastHidden == nil {
+				okc, why = false, "no hidden variable registered"
+			}
+			var entry ssa.Instruction
+			allInstrs(fn, func(in ssa.Instruction) {
+				sc := staticCallee(in)
+				if sc == nil || !g.Live(in) {
+					return
+				}
+				switch sc.Name() {
+				case "AddASbx", "AddABC":
+					if entry == nil && lastHidden != nil && g.Dominates(lastHidden, in) {
+						entry = in
+					}
+				}
+			})
+			if entry == nil || !g.Dominates(s, entry) {
+				okc, why = false, "the loop-entry instruction is emitted before the scope start is set"
+			}
+			allInstrs(fn, func(in ssa.Instruction) {
+				sc := staticCallee(in)
+				if sc == nil || !g.Live(in) || entry == nil {
+					return
+				}
+				if (sc.Name() == "compileExpr" || sc.Name() == "compileRegAssignment") && g.Dominates(in, entry) && !g.Dominates(in, s) {
+					okc, why = false, "a header expression is compiled after the scope start was set"
+				}
+			})
+		}
+		c.Sites++
+		c.check(okc, R, name+":hidden-variables-in-scope-from-the-loop-entry", p.pos(fn.Pos()), "StartScopeHere after the header expressions, before the loop entry",
+			name+": "+why+" — the loop's hidden variables are visible to debug.getlocal from a function called by the loop header (`for i = f(), 2 do`: inside f, the caller already has a local \"(for index)\")")
+	}
+}
